@@ -200,6 +200,48 @@ func genC07(r *Rng, idx int, tier string) *World {
 			}
 			w.Tasks = append(w.Tasks, ops)
 		}
+	case k < 9 && r.Pct(50):
+		// g: a quiescent Group whose routers sit behind composite matchers (which snapshot and restore
+		// request state when they reject), served by concurrent clients
+		w.Variant = "g"
+		w.Pool.Fresh, w.Pool.Newest, w.Pool.Oldest, w.Pool.Rand, w.Pool.Drop = pick(r, []int{0, 1}), 4, 1, 2, pick(r, []int{0, 15})
+		specs := []string{
+			"and(pv[ver,v1] | hosts[{sub}.c.com])",
+			"and(hosts[{sub}.c.com] | hv[hver,1,3])",
+			"or(and(pv[v,v2] | hosts[b.com]) | hosts[{sub}.d.com])",
+			"and(or(hosts[a.com] | hosts[{sub}.e.com]) | pv[,v1,v2])",
+			"hosts[{any}]",
+			// a composite that rejects *after* parameters were captured outside it, inside an Or that goes on
+			"and(hosts[{sub}.c.com] | or(and(pv[ver,v1] | hv[hver,1]) | pv[,v1,v2,v3]))",
+			"and(hosts[{sub}.d.com] | or(and(hv[hver,3] | pv[v,v2]) | hosts[{any}]))",
+		}
+		shuffle(r, specs)
+		hid := 100
+		nR := r.Range(2, 4)
+		for i := 0; i < nR; i++ {
+			name := fmt.Sprintf("g%d", i)
+			w.Setup = append(w.Setup, Op{K: "gnew", Name: name, Args: []string{specs[i]}})
+			for _, p := range []string{"/x/{id}", "/y"} {
+				hid++
+				w.Setup = append(w.Setup, Op{K: "handle", Name: name, Pattern: p, HID: hid, Methods: []string{"GET"}})
+			}
+		}
+		nT := r.Range(2, 5)
+		uniq := 0
+		for t := 0; t < nT; t++ {
+			var ops []Op
+			for i := r.Range(1, 4); i > 0; i-- {
+				uniq++
+				q := Req{Method: "GET",
+					Path: pick(r, []string{"", "/v1", "/v2", "/v3"}) + pick(r, []string{fmt.Sprintf("/x/%d", 1000+uniq), "/y", "/nope"}),
+					Host: pick(r, []string{fmt.Sprintf("s%d.c.com", uniq), "a.com", "b.com", fmt.Sprintf("t%d.d.com", uniq), fmt.Sprintf("u%d.e.com", uniq), "zzz.org"})}
+				if r.Pct(50) {
+					q.Hdr = map[string]string{"Accept": pick(r, []string{"application/json; version=1", "application/json; version=3", "application/json; version=9"})}
+				}
+				ops = append(ops, Op{T: t, K: "req", Req: &q})
+			}
+			w.Tasks = append(w.Tasks, ops)
+		}
 	default:
 		w.Variant = "d"
 		// prior activity: 1-3 other instances, sequential scripts
@@ -383,6 +425,53 @@ func execC07(w *World, st *Stats) (*Violation, RunInfo) {
 			want := Serve(r2, *l.Op.Req, nil, nil)
 			if want.Key() != l.Out {
 				return mk("sequential-replica", "differs-from-sequential", fmt.Sprintf("%s answered %s concurrently and %s sequentially", l.Op.Req, l.Out, want.Key())), info
+			}
+		}
+		return nil, info
+	case "g":
+		build := func() *c13Group { return buildC13(&World{Ops: w.Setup}, len(w.Setup), "") }
+		cg := build()
+		logs, sw := runTasks(w, func(task int, op *Op) string {
+			var first, second map[string]string
+			o := Serve(cg.g, *op.Req, nil, func(rec *ReqRec, route types.Route) {
+				first = snapshotParams(route.Params())
+				simrt.Point(simrt.KUser)
+				simrt.Point(simrt.KUser)
+				second = snapshotParams(route.Params())
+			})
+			out := obsKey13(&o)
+			if first != nil && fmtParams(first) != fmtParams(second) {
+				out = fmt.Sprintf("viol:params-changed-under-handler:request %s saw %s on entry and %s after yielding", op.Req, fmtParams(first), fmtParams(second))
+			}
+			return out
+		})
+		info.Interleave, info.Events, info.Sched = sw.Hash(), sw.Steps(), sw.Recorded()
+		info.Shape = hashU(info.Shape, sw.Hash())
+		info.Hash = foldLogs(sw.Hash(), logs)
+		info.Nontrivial = sw.Preempts > 0
+		st.CN("preempt", sw.Preempts)
+		if sw.WasAborted() {
+			if sw.AbortReason == "deadlock" {
+				return mk("deadlock", "deadlock", "concurrent requests on a quiescent group block each other"), info
+			}
+			st.Inconclusive["cap"]++
+			return nil, info
+		}
+		for _, t := range sw.Tasks() {
+			if t.Panic != nil {
+				return mk("task-panic", "task-panic", fmt.Sprintf("task %s died: %v", t.Name, t.Panic)), info
+			}
+		}
+		simrt.SetPoolCfg(simrt.PoolCfg{Fresh: 1, Drop: 100})
+		seq := build()
+		for _, l := range logs {
+			if strings.HasPrefix(l.Out, "viol:") {
+				parts := strings.SplitN(l.Out, ":", 3)
+				return mk("own-params", parts[1], parts[2]), info
+			}
+			want := Serve(seq.g, *l.Op.Req, nil, nil)
+			if obsKey13(&want) != l.Out {
+				return mk("sequential-replica", "differs-from-sequential", fmt.Sprintf("%s hdr=%v answered %s concurrently and %s sequentially", l.Op.Req, l.Op.Req.Hdr, l.Out, obsKey13(&want))), info
 			}
 		}
 		return nil, info
